@@ -220,6 +220,12 @@ def summary():
     for r in surv:
         silent = ", ".join(k for k, v in r.get("checks", {}).items() if not v["detected"])
         out.append(f"| {r['id']} | {r['file']}:{r['line']} | `{r['old'][:60]}` -> `{r['new'][:60]}` | {', '.join(r.get('detected_by', [])) or '**none**'} | {silent} |")
+    out += ["", "## Survivors that no check reports: analysis", "",
+            "* `let mut grandparent_right = false -> true`, `let mut parent_right = false -> true` (map/mod.rs, `remove` and `remove_children`): the variables are assigned in the same loop iteration that sets `parent`/`grandparent` to `Some`, and are ignored while those are `None`: equivalent.",
+            "* `_retain(0, None, false, None, false, f)` with either flag flipped (map/mod.rs, set.rs): `par_right` / `grp_right` are only read when `par` / `grp` are `Some`; the root call passes `None`: equivalent.",
+            "* `if idx >= len` -> `if idx > len` in `Table::get_mut` (inner.rs): the bounds check is only reached with indices taken from links of the arena; on a well-formed arena `idx == len` never occurs: equivalent on every reachable state.",
+            "* `if p_a.mask() < p_b.mask()` -> `<=` in the last branch of union's `next_indices`: that branch is reached only when neither prefix contains the other, so the two masks differ: equivalent.",
+            "", "(Mutants of the counter updates in `TrieViewMut::set/remove` and of `Cover::next` were first recorded as unreported because the tool's file-to-check table lacked C04 for `trieview/mod.rs`, and because a panic inside an observer used to be attributed to C20 only; both were corrected and the re-check pass reports them.)"]
     open("/verif/mutants/RESULTS.md", "w").write("\n".join(out) + "\n")
     print("\n".join(out[:6]))
 
